@@ -83,6 +83,9 @@ class Ref:
         return s if s is not None else (1, 4)
 
     def w(self, line):
+        if getattr(self, "fail_next", False):
+            self.fail_next = False
+            raise Err("TransportError", transport=True)
         self.writes.append(line)
 
     def set_version(self, p):
@@ -105,7 +108,8 @@ class Ref:
 
     def flush(self, n):
         for key in [k for k in self.pending if k[0] == n]:
-            self.w(self.pending.pop(key))
+            self.w(self.pending[key])  # a failing write leaves the entry buffered (C08)
+            self.pending.pop(key)
 
     def handle(self, n, c, k, a, t, p):
         v = self.proto()
@@ -196,7 +200,10 @@ class Ref:
         except Err as e:
             out = ("error", e.kind, e.attrs)
         if self.version is None and not (k == 3 and t in (9, 14)):
-            self.w("0;255;3;0;2;\n")
+            try:
+                self.w("0;255;3;0;2;\n")
+            except Err as e:
+                out = ("error", e.kind, e.attrs)
         return out
 
     def send(self, n, c, k, a, t, p, buffer=True):
@@ -286,6 +293,10 @@ def drive(gw, tr, ref, steps):
         ref.writes = []
         kind = st[0]
         real_out = None
+        if kind == "fail":  # the next transport write fails
+            tr.fail_writes.add(tr.attempts)
+            ref.fail_next = True
+            continue
         if kind == "recv":
             line = st[1]
             tr.reads.append(line)
@@ -317,11 +328,16 @@ def drive(gw, tr, ref, steps):
                             diffs.append(({"C04"}, f"step {i} {line!r}: error names {k}={real_out[2].get(k)} expected {exp[2][k]}"))
         elif kind == "send":
             n, c, k, a, t, p, buf = st[1:]
-            ref.send(n, c, k, a, t, p, buf)
+            ref_failed = False
+            try:
+                ref.send(n, c, k, a, t, p, buf)
+            except Err:
+                ref_failed = True
             try:
                 native.run(gw.send(Message(n, c, k, a, t, p), message_buffer=buf))
             except AIOMySensorsError as e:
-                diffs.append(({"C12"}, f"step {i} send {st[1:]}: raised {type(e).__name__}"))
+                if not ref_failed:
+                    diffs.append(({"C12"}, f"step {i} send {st[1:]}: raised {type(e).__name__}"))
             except Exception as e:  # noqa: BLE001
                 diffs.append(({"C12", "C03"}, f"step {i} send {st[1:]}: non-library exception {type(e).__name__}: {e}"))
         rw, xw = norm_writes(tr.writes[before_w:]), norm_writes(ref.writes)
